@@ -123,8 +123,9 @@ type Path struct {
 }
 
 type region struct {
-	id   string
-	cond Value // bool or *Term
+	id     string
+	cond   Value  // bool or *Term
+	clause string // "" = any clause, else only failures of this clause
 }
 
 func (p *Path) tt() *TermTable { return p.w.tt }
@@ -730,9 +731,12 @@ func (p *Path) Decide1(c *Term) bool {
 
 // ---- assertions -----------------------------------------------------------
 
-func (p *Path) activeRegions() (concreteHit string, sym []region) {
+func (p *Path) activeRegions(clause string) (concreteHit string, sym []region) {
 	for _, r := range p.regions {
 		if !p.w.eng.findingActive(r.id) {
+			continue
+		}
+		if r.clause != "" && r.clause != clause {
 			continue
 		}
 		switch c := r.cond.(type) {
@@ -870,7 +874,7 @@ func (p *Path) Assert(c Value, clause string) {
 		}
 	}
 	neg := tt.Not(ct)
-	hit, sym := p.activeRegions()
+	hit, sym := p.activeRegions(clause)
 	failed := false
 	if hit != "" {
 		// every failure on this path lies in a known-finding region
@@ -932,7 +936,7 @@ func (p *Path) Assert(c Value, clause string) {
 
 // Panicked is called when a Go panic escapes the harness.
 func (p *Path) Panicked(gp goPanic) {
-	hit, sym := p.activeRegions()
+	hit, sym := p.activeRegions("no-panic")
 	tt := p.tt()
 	if hit != "" {
 		_, m := p.queryModel()
